@@ -39,15 +39,20 @@ VARIABLES intended,   \* intent store: set of [o, p, l, v]
           slot,       \* None or [id, armed, snap, req]  (TransactionManager.transaction)
           pend,       \* None or the transaction being executed (window inside TransactionSet)
           answers,    \* observation: <<id, op, ret>> of finished calls
-          dryPred     \* observation: last dry-run prediction [I, d, req, chg] or None
+          dryPred,    \* observation: last dry-run prediction [I, d, req, chg] or None
+          lastFail    \* history: the last failed TransactionSet [valid, req, I, d] (C07 retry)
 
-vars == <<intended, running, device, ever, slot, pend, answers, dryPred>>
-view == <<intended, running, device, ever, slot, pend>>
+vars == <<intended, running, device, ever, slot, pend, answers, dryPred, lastFail>>
+view == <<intended, running, device, ever, slot, pend, lastFail>>
 
 NoPend == [phase |-> "idle"]
 NoSlot == [id |-> "none", armed |-> FALSE, snap |-> {}, req |-> {}, tmo |-> "long"]
 NoChg == [upd |-> {}, del |-> {}]
 NoPred == [valid |-> FALSE]
+NoFail == [valid |-> FALSE]
+\* a failed attempt is remembered from its FIRST failure until the request succeeds
+Failed(req, I, d) == IF lastFail.valid /\ lastFail.req = req THEN lastFail
+                     ELSE [valid |-> TRUE, req |-> req, I |-> I, d |-> d]
 Idle == pend.phase = "idle"
 Free == slot.id = "none"
 Val(l) == UVals[l]
@@ -79,6 +84,7 @@ Init == /\ intended = {}
         /\ pend = NoPend
         /\ answers = <<>>
         /\ dryPred = NoPred
+        /\ lastFail = NoFail
 
 Answer(id, op, ret) == answers' = Append(answers, <<id, op, ret>>)
 
@@ -86,7 +92,7 @@ Answer(id, op, ret) == answers' = Append(answers, <<id, op, ret>>)
 TxRefused(id) ==
     /\ Idle /\ ~Free
     /\ Answer(id, "set", "locked")
-    /\ UNCHANGED <<intended, running, device, ever, slot, pend, dryPred>>
+    /\ UNCHANGED <<intended, running, device, ever, slot, pend, dryPred, lastFail>>
 
 TxBegin(id, R, dry, fail, tmo) ==
     /\ Idle /\ Free
@@ -95,6 +101,8 @@ TxBegin(id, R, dry, fail, tmo) ==
                 pre |-> [I |-> intended, d |-> device, r |-> running],
                 snap |-> SnapOf(intended, R), todo |-> ReqOwners(R), chg |-> NoChg]
     /\ slot' = [id |-> id, armed |-> FALSE, snap |-> SnapOf(intended, R), req |-> R, tmo |-> tmo]
+    \* C07 speaks about repeating the SAME request right after the fault
+    /\ lastFail' = IF lastFail.valid /\ (lastFail.req # R \/ dry) THEN NoFail ELSE lastFail
     /\ UNCHANGED <<intended, running, device, ever, answers, dryPred>>
 
 Done(ret) == /\ Answer(pend.id, "set", ret)
@@ -104,7 +112,7 @@ TxReject ==
     /\ pend.phase = "begun"
     /\ ~Valid(ResultCfg(NewStore(intended, pend.req), device))
     /\ Done("invalid") /\ slot' = NoSlot
-    /\ UNCHANGED <<intended, running, device, ever, dryPred>>
+    /\ UNCHANGED <<intended, running, device, ever, dryPred, lastFail>>
 
 \* the device result is chosen among the admissible ones (constructive form)
 NextDevice(R) ==
@@ -119,7 +127,7 @@ TxDryRun ==
     /\ \E d2 \in NextDevice(pend.req) :
          dryPred' = [valid |-> TRUE, I |-> intended, d |-> device, req |-> pend.req, chg |-> MinimalChange(device, d2)]
     /\ Done("ok") /\ slot' = NoSlot
-    /\ UNCHANGED <<intended, running, device, ever>>
+    /\ UNCHANGED <<intended, running, device, ever, lastFail>>
 
 TxApply ==
     /\ pend.phase = "begun" /\ ~pend.dry /\ pend.fail = "none"
@@ -127,12 +135,13 @@ TxApply ==
     /\ \E d2 \in NextDevice(pend.req) :
          /\ device' = d2
          /\ pend' = [pend EXCEPT !.phase = "applied", !.chg = MinimalChange(device, d2)]
-    /\ UNCHANGED <<intended, running, ever, slot, answers, dryPred>>
+    /\ UNCHANGED <<intended, running, ever, slot, answers, dryPred, lastFail>>
 
 TxApplyFail ==
     /\ pend.phase = "begun" /\ ~pend.dry /\ pend.fail = "device"
     /\ Valid(ResultCfg(NewStore(intended, pend.req), device))
     /\ Done("error") /\ slot' = NoSlot
+    /\ lastFail' = Failed(pend.req, pend.pre.I, pend.pre.d)
     /\ UNCHANGED <<intended, running, device, ever, dryPred>>
 
 \* one Modify per intent: the owner's old entries are removed (under their OLD priority),
@@ -141,17 +150,18 @@ TxPersistIntent(o) ==
     /\ pend.phase = "applied" /\ o \in pend.todo
     /\ intended' = {x \in intended : x.o # o} \cup OfOwner(NewStore(pend.pre.I, pend.req), o)
     /\ pend' = [pend EXCEPT !.todo = @ \ {o}]
-    /\ UNCHANGED <<running, device, ever, slot, answers, dryPred>>
+    /\ UNCHANGED <<running, device, ever, slot, answers, dryPred, lastFail>>
 
 TxPersistRunning ==
     /\ pend.phase = "applied" /\ pend.todo = {}
     /\ running' = ApplyChange(running, pend.chg)
     /\ pend' = [pend EXCEPT !.phase = "persisted"]
-    /\ UNCHANGED <<intended, device, ever, slot, answers, dryPred>>
+    /\ UNCHANGED <<intended, device, ever, slot, answers, dryPred, lastFail>>
 
 TxArm ==
     /\ pend.phase = "persisted"
-    /\ ever' = ever \cup LeavesOf(intended)
+    /\ ever' = EverAfter(ever, pend.pre.I, pend.req, intended, device)
+    /\ lastFail' = IF lastFail.valid /\ lastFail.req = pend.req THEN NoFail ELSE lastFail
     /\ slot' = IF WithLifecycle THEN [slot EXCEPT !.armed = TRUE] ELSE NoSlot
     /\ Done("ok")
     /\ UNCHANGED <<intended, running, device, dryPred>>
@@ -162,13 +172,15 @@ Fail ==
     /\ pend.phase \in {"begun", "applied", "persisted"}
     /\ ever' = ever \cup LeavesOf(intended)
     /\ Done("error") /\ slot' = NoSlot
+    /\ lastFail' = Failed(pend.req, pend.pre.I, pend.pre.d)
     /\ UNCHANGED <<intended, running, device, dryPred>>
 
 \* process restart: in-memory state is lost, the cache and the device persist
 Restart ==
-    /\ WithFaults
+    /\ WithFaults /\ ~Idle
     /\ pend' = NoPend /\ slot' = NoSlot
     /\ ever' = ever \cup LeavesOf(intended)
+    /\ lastFail' = IF Idle THEN lastFail ELSE Failed(pend.req, pend.pre.I, pend.pre.d)
     /\ UNCHANGED <<intended, running, device, answers, dryPred>>
 
 \* ---- lifecycle ---------------------------------------------------------------------
@@ -177,7 +189,7 @@ Confirm(id) ==
     /\ IF ~Free /\ slot.id = id /\ slot.armed
        THEN slot' = NoSlot /\ Answer(id, "confirm", "ok")
        ELSE slot' = slot /\ Answer(id, "confirm", "error")
-    /\ UNCHANGED <<intended, running, device, ever, pend, dryPred>>
+    /\ UNCHANGED <<intended, running, device, ever, pend, dryPred, lastFail>>
 
 \* rollback: the old content of the transaction's intents is re-applied as a transaction
 RollbackReq(snap, R) ==
@@ -202,7 +214,7 @@ Cancel(id) ==
        THEN DoRollback /\ Answer(id, "cancel", "ok")
        ELSE /\ Answer(id, "cancel", "error")
             /\ UNCHANGED <<intended, running, device, ever, slot>>
-    /\ UNCHANGED <<pend, dryPred>>
+    /\ UNCHANGED <<pend, dryPred, lastFail>>
 
 \* time passes: more than the short transaction timeout, less than the long one.  An armed
 \* short transaction is rolled back by its timer; nothing else may happen.
@@ -211,13 +223,13 @@ Wait ==
     /\ IF ~Free /\ slot.armed /\ slot.tmo = "short"
        THEN DoRollback
        ELSE UNCHANGED <<intended, running, device, ever, slot>>
-    /\ UNCHANGED <<pend, answers, dryPred>>
+    /\ UNCHANGED <<pend, answers, dryPred, lastFail>>
 
 \* the device's own sync refreshes the mirror
 EnvSync ==
     /\ Idle /\ running # device
     /\ running' = device
-    /\ UNCHANGED <<intended, device, ever, slot, pend, answers, dryPred>>
+    /\ UNCHANGED <<intended, device, ever, slot, pend, answers, dryPred, lastFail>>
 
 Next ==
     \/ \E id \in TxnId, R \in Request, dry \in BOOLEAN, f \in FailKinds, t \in TmoKinds : TxBegin(id, R, dry, f, t)
@@ -255,6 +267,19 @@ NoEffectSteps ==
     [][(~Idle /\ pend' = NoPend /\ answers' # answers /\ Len(answers') > 0
         /\ answers'[Len(answers')][3] \in {"invalid"}) =>
          (intended' = pend.pre.I /\ device' = pend.pre.d /\ running' = pend.pre.r)]_vars
+\* C07: the first success of a request that failed before ends in the fault-free result:
+\* the store the request denotes from the pre-fault store, and a device admissible from the pre-fault device
+RetryConverges ==
+    [][(pend.phase = "persisted" /\ pend' = NoPend /\ lastFail.valid /\ lastFail.req = pend.req) =>
+         LET I2 == NewStore(lastFail.I, pend.req)
+         IN /\ intended' = I2
+            /\ AdmConverged(device', I2)
+            /\ AdmOneCase(device', I2)]_vars
+\* C07: a device failure is all-or-nothing
+DeviceFailAtomic ==
+    [][(pend.phase = "begun" /\ pend' = NoPend /\ pend.fail = "device" /\ Len(answers') > Len(answers)
+        /\ answers'[Len(answers')][3] = "error") =>
+         (intended' = pend.pre.I /\ running' = pend.pre.r /\ device' = pend.pre.d /\ slot' = NoSlot)]_vars
 \* C05: after a rollback the store equals the snapshot and touched leaves are back
 RollbackRestores ==
     [][(Idle /\ ~Free /\ slot' = NoSlot /\ intended' # intended) =>
